@@ -364,5 +364,8 @@ func genAnonOps() {
 		fmt.Fprintf(&b, "(\"%s\", %s, %s)", strings.ReplaceAll(n, "\"", "\"\""), coqb(rows[n].writes), coqb(rows[n].locked))
 	}
 	b.WriteString("].\n")
+	// second table of this file (gen_sharedwrites.go): every write into memory
+	// that may be shared, in code reachable from the using API
+	b.WriteString(sharedWritesCoq())
 	writeIfChanged(filepath.Join(outDir, "AnonOps.v"), b.String())
 }
